@@ -77,6 +77,18 @@ Theorem C04_frame_keyed_list_partial :
 Proof. exact (@merge2_frame_keyed). Qed.
 Print Assumptions C04_frame_keyed_list_partial.
 
+(* Composite merge keys (Service ports [port, protocol]): "$patch: delete" on a port written without protocol removes it
+   when it is alone, but is silently ignored as soon as another element of the list spells a protocol -- the result is
+   the unchanged target (finding C04/reference/composite-key-delete-ignored-when-protocol-spelled-elsewhere; repair
+   proposed, see design.d/C04.md). *)
+Theorem C04_composite_key_delete_refuted :
+  smerge cd_p cd_t = Ok (Some cd_t) /\
+  smerge cd_p (svc [cd_port53]) =
+  Ok (Some (Map [("apiVersion"%string, Scalar TStr SPlain "v1"%string); ("kind"%string, Scalar TStr SPlain "Service"%string);
+                 ("spec"%string, Map [("ports"%string, Seq [])])])).
+Proof. exact composite_delete_refuted. Qed.
+Print Assumptions C04_composite_key_delete_refuted.
+
 Theorem C04_quote11_same_value :
   forall (nonstr : string -> bool) (v : node),
     node_value (Fns.quote11 nonstr v) = node_value v /\
